@@ -182,6 +182,8 @@ QUOTE_STRS = {
     "same-wrapped": ["'x'", "\"x\"", "'a b'", "\"a'b\"", "''", "\"\""],
     "lone": ["'", "\""],
     "escaped": ["a\\'b", "a\\\"b", "\\'x\\'", "back\\\\slash"],
+    # no quote characters, but text that looks like Python syntax (an annotated default, an arrow, a comment, a lambda): rendering must not touch it
+    "syntax-like": ["%(name)s: %(key)s=%(value)s", "{host}: port={port}", "level: debug=1", "a -> b", "x: int=3", "k=v", "lambda x: x+1"],
 }
 QUOTE_TYPES = ["str", "str", "Optional[str]", "Union[str, int]", "Union[int, str]", "Optional[Union[str, float]]"]
 
